@@ -275,7 +275,7 @@ def parent_main(prop: str, tier: str, seed: int, replay: str | None, jobs: int) 
         (edir / f"{prop}.json").write_text(json.dumps(evidence, indent=1))
 
     if new_viols:
-        rdir = VERIF / "replay" / prop
+        rdir = Path(os.environ.get("VF_REPLAY_DIR") or (VERIF / "replay")) / prop
         rdir.mkdir(parents=True, exist_ok=True)
         seen = set()
         for v in new_viols:
